@@ -62,7 +62,26 @@ func constructorsInitialiseUsedFields(p *Prog, r *Report, rule string) {
 			continue
 		}
 		for _, file := range pkg.Syntax {
+			// fields assigned by name somewhere in the same function (x.f = ...)
+			// count as set by that function's literals
+			var assignedHere map[string]bool
 			ast.Inspect(file, func(n ast.Node) bool {
+				if fd, ok := n.(*ast.FuncDecl); ok {
+					assignedHere = map[string]bool{}
+					if fd.Body != nil {
+						ast.Inspect(fd.Body, func(m ast.Node) bool {
+							if as, ok := m.(*ast.AssignStmt); ok {
+								for _, l := range as.Lhs {
+									if se, ok := l.(*ast.SelectorExpr); ok {
+										assignedHere[se.Sel.Name] = true
+									}
+								}
+							}
+							return true
+						})
+					}
+					return true
+				}
 				cl, ok := n.(*ast.CompositeLit)
 				if !ok || len(cl.Elts) == 0 {
 					return true
@@ -96,7 +115,7 @@ func constructorsInitialiseUsedFields(p *Prog, r *Report, rule string) {
 				}
 				for i := 0; i < st.NumFields(); i++ {
 					f := st.Field(i)
-					if set[f.Name()] {
+					if set[f.Name()] || assignedHere[f.Name()] {
 						continue
 					}
 					if _, isStruct := f.Type().Underlying().(*types.Struct); isStruct && zeroHoldsNil(f.Type(), 0) {
